@@ -42,6 +42,8 @@ pub mod feedback {
 pub struct Opaque { pub _p: u8 }
 pub enum Layer { Dense(dense::Dense), Convolution(convolution::Convolution), Deconvolution(deconvolution::Deconvolution), Maxpool(Opaque), Feedback(feedback::Feedback) }
 pub struct Network { pub optimizer: optimizer::Optimizer }
+pub mod network { pub use super::Layer; }           // Feedback::update names the variants as `network::Layer::..`
+pub struct FeedbackBlock { pub optimizer: optimizer::Optimizer }
 
 /// the filters 0..n of a kernel list stepped in order, filter f in slot (i, f, false) with the f-th part of the layer's gradient
 pub open spec fn step_filters(o: optimizer::Optimizer, i: usize, stepnr: i32, ks: Seq<Tensor>, gs: Seq<Tensor>, n: int) -> (optimizer::Optimizer, Seq<Tensor>)
@@ -98,6 +100,65 @@ fn update_step(&mut self, i: usize, layer: &mut Layer, stepnr: i32, weight_gradi
     let ghost o0 = self.optimizer;
     let ghost g0 = quad_parts(weight_gradients@[i as int]);
     //@body file=src/network.rs impl=Network fn=update part=closure:1 params="(i, layer)" rewrites=R13,R47 loops=2
+    //@loop 1
+            invariant
+                i < weight_gradients@.len(), weight_gradients@ == old(weight_gradients)@, g0 == quad_parts(old(weight_gradients)@[i as int]),
+                __zy@.len() == g0.len(), forall|k: int| __f <= k < g0.len() ==> #[trigger] __zy@[k] == g0[k],
+                l0 is Convolution, layer.kernels@.len() == l0->Convolution_0.kernels@.len(), __f <= min_len(l0->Convolution_0.kernels@, g0),
+                (self.optimizer, layer.kernels@) == step_filters(o0, i, stepnr, l0->Convolution_0.kernels@, g0, __f as int), //@ob filters_stepped_in_order.inv
+            decreases min_len(l0->Convolution_0.kernels@, g0) - __f,
+    //@end
+    //@loop 2
+            invariant
+                i < weight_gradients@.len(), weight_gradients@ == old(weight_gradients)@, g0 == quad_parts(old(weight_gradients)@[i as int]),
+                __zy@.len() == g0.len(), forall|k: int| __f <= k < g0.len() ==> #[trigger] __zy@[k] == g0[k],
+                l0 is Deconvolution, layer.kernels@.len() == l0->Deconvolution_0.kernels@.len(), __f <= min_len(l0->Deconvolution_0.kernels@, g0),
+                (self.optimizer, layer.kernels@) == step_filters(o0, i, stepnr, l0->Deconvolution_0.kernels@, g0, __f as int), //@ob filters_stepped_in_order.inv
+            decreases min_len(l0->Deconvolution_0.kernels@, g0) - __f,
+    //@end
+    //@endbody
+}
+}
+//@endunit
+
+//@unit feedback.update.dispatch prop=C03,C10
+// the same dispatch inside a feedback block (first statement of Feedback::update): every COPY of every block layer gets one step of the block's own
+// optimizer in its own slot, before the copies are re-tied (C10's write-back unit)
+impl FeedbackBlock {
+fn update_step(&mut self, i: usize, layer: &mut Layer, stepnr: i32, weight_gradients: &mut Vec<tensor::Tensor>, bias_gradients: &mut Vec<Option<tensor::Tensor>>)
+    requires
+        i < old(weight_gradients)@.len(), i < old(bias_gradients)@.len(),
+        (*old(layer) is Dense && old(layer)->Dense_0.bias is Some) ==> old(bias_gradients)@[i as int] is Some,
+        //@requires-extra
+    ensures
+        match *old(layer) {
+            Layer::Dense(d) => {
+                let w = optimizer::opt_step(old(self).optimizer, i, 0, false, stepnr, d.weights, old(weight_gradients)@[i as int]);
+                &&& *final(layer) is Dense
+                &&& final(layer)->Dense_0.weights == w.1
+                &&& (d.bias is None ==> final(self).optimizer == w.0 && final(layer)->Dense_0.bias is None)
+                &&& (d.bias is Some ==> ({
+                        let b = optimizer::opt_step(w.0, i, 0, true, stepnr, d.bias->Some_0, old(bias_gradients)@[i as int]->Some_0);
+                        final(self).optimizer == b.0 && final(layer)->Dense_0.bias == Some(b.1) }))
+            },
+            Layer::Convolution(c) => {
+                let gs = quad_parts(old(weight_gradients)@[i as int]);
+                let r = step_filters(old(self).optimizer, i, stepnr, c.kernels@, gs, min_len(c.kernels@, gs));
+                *final(layer) is Convolution && final(layer)->Convolution_0.kernels@ == r.1 && final(self).optimizer == r.0
+            },
+            Layer::Deconvolution(c) => {
+                let gs = quad_parts(old(weight_gradients)@[i as int]);
+                let r = step_filters(old(self).optimizer, i, stepnr, c.kernels@, gs, min_len(c.kernels@, gs));
+                *final(layer) is Deconvolution && final(layer)->Deconvolution_0.kernels@ == r.1 && final(self).optimizer == r.0
+            },
+            Layer::Maxpool(_) => *final(layer) == *old(layer) && final(self).optimizer == old(self).optimizer,
+            Layer::Feedback(_) => true,   // (a nested block is rejected by the code)
+        }, //@ob exactly_one_step_per_parameter_tensor_of_every_copy
+{
+    let ghost l0 = *layer;
+    let ghost o0 = self.optimizer;
+    let ghost g0 = quad_parts(weight_gradients@[i as int]);
+    //@body file=src/feedback.rs impl=Feedback fn=update part=closure:1 params="(i, layer)" rewrites=R13,R47 loops=2
     //@loop 1
             invariant
                 i < weight_gradients@.len(), weight_gradients@ == old(weight_gradients)@, g0 == quad_parts(old(weight_gradients)@[i as int]),
